@@ -111,7 +111,14 @@ def _reset_state(kind: str, point: str, first: str | None = None) -> None:
         fired=False,
         reached=[],
         dbcalls=[],
-        zst=[],
+        dbcalls_outer=[],
+        nest=False,
+        cmds=[],  # command objects of this process: [single] or [outer, inner]
+        zst=[],  # log file handlers in creation order
+        zst_path=[],
+        window_open=[],  # per handler: its owner has not yet begun its final bookkeeping
+        detached_early=[],  # per handler: first record it missed while its owner was still running
+        closed_at_owner_finally=[],  # per handler: was it already closed when its owner began to clean up
         records=[],
         in_hook=None,
         hook_raised=None,
@@ -170,33 +177,46 @@ def _load_transport(target: TargetURI) -> type[BaseTransport]:
 class TracingDB(DBHandler):
     """The real DBHandler; records which run_meta related calls happen and hosts the db-open / db-close points."""
 
+    def _owner(self) -> Any:
+        for c in ST["cmds"]:
+            if c.db_handler is self:
+                return c
+        return None
+
+    def _calls(self) -> list[str]:
+        own = self._owner()
+        return ST["dbcalls_outer"] if getattr(own, "_c15_role", None) == "outer" else ST["dbcalls"]
+
     async def connect(self) -> None:
-        ST["dbcalls"].append("connect")
+        self._calls().append("connect")
         await super().connect()
-        await _point(None, "db-open")
+        await _point(self._owner(), "db-open")
 
     async def insert_run_meta(self, *a: Any, **kw: Any) -> None:
-        ST["dbcalls"].append("insert_run_meta")
+        self._calls().append("insert_run_meta")
         await super().insert_run_meta(*a, **kw)
 
     async def complete_run_meta(self, *a: Any, **kw: Any) -> None:
-        ST["dbcalls"].append("complete_run_meta")
-        if ST["kind"] == "dbfault" and ST["point"] == "db-close":
+        self._calls().append("complete_run_meta")
+        if ST["kind"] == "dbfault" and ST["point"] == "db-close" and getattr(self._owner(), "_c15_role", None) != "outer":
             ST["fired"] = True
             raise aiosqlite.OperationalError("c15: database is locked")
         await super().complete_run_meta(*a, **kw)
 
     async def disconnect(self) -> None:
-        ST["dbcalls"].append("disconnect")
+        self._calls().append("disconnect")
         await super().disconnect()
 
 
 async def _point(cmd: Any, name: str) -> None:
+    if getattr(cmd, "_c15_role", None) == "outer":
+        ST["reached"].append("outer:" + name)  # the planned exit belongs to the inner command
+        return
     ST["reached"].append(name)
     if name == "main" and ST["first"] is not None and not ST["first_fired"]:
         ST["first_fired"] = True
         kind = ST["first"]
-    elif ST["point"] != name or ST["fired"] or ST["kind"] in ("normal", "dbfault"):
+    elif ST["point"] != name or ST["fired"] or ST["kind"] in ("normal", "dbfault", "lockfault"):
         return
     else:
         ST["fired"] = True
@@ -240,6 +260,15 @@ class _Lifecycle:
 
     async def main(self) -> None:
         await asyncio.sleep(0)
+        if getattr(self, "_c15_role", None) == "outer":
+            # like Rerunner.main(): run another command's entry_point() while the own log file is open
+            inner = ST["cmds"][1]
+            GLOG.info("c15 outer: starting the inner command")
+            code = await inner.entry_point()
+            await asyncio.sleep(0)
+            GLOG.info(f"c15 outer: inner command ended with {code}")
+            ST["reached"].append("outer:after-inner")
+            sys.exit(code)
         ecu = getattr(self, "ecu", None)
         tr = getattr(self, "transport", None)
         if ecu is not None:
@@ -257,12 +286,20 @@ class _Lifecycle:
         await _point(self, "teardown-late")
 
     async def _db_finish_run_meta(self) -> None:
+        # first statement of entry_point()'s final bookkeeping: up to here the command's own log handler must have
+        # stayed open and attached, from here on its owner closes it
+        for i, h in enumerate(ST["zst"]):
+            if Path(ST["zst_path"][i]).parent == self.artifacts_dir and ST["window_open"][i]:  # type: ignore[attr-defined]
+                ST["closed_at_owner_finally"][i] = bool(h.file.closed)
+                ST["window_open"][i] = False
         if self.db_handler is not None:  # type: ignore[attr-defined]
             await _point(self, "db-close")
         await super()._db_finish_run_meta()  # type: ignore[misc]
 
     def run_hook(self, variant: HookVariant, exit_code: int | None = None) -> None:
         name = f"{variant.value}-hook"
+        if getattr(self, "_c15_role", None) == "outer":
+            return super().run_hook(variant, exit_code)  # type: ignore[misc]
         ST["reached"].append(name)
         if ST["point"] == name:
             ST["fired"] = True
@@ -288,6 +325,14 @@ class C15UDSConfig(UDSScannerConfig):
     note: str = Field("uds", description="c15 harness command")
 
 
+class C15OuterConfig(AsyncScriptConfig):
+    note: str = Field("outer", description="c15 harness command that runs another command")
+
+
+class C15Outer(_Lifecycle, AsyncScript):
+    CONFIG_TYPE = C15OuterConfig
+
+
 class C15Plain(_Lifecycle, AsyncScript):
     CONFIG_TYPE = C15PlainConfig
 
@@ -300,13 +345,16 @@ class C15Uds(_Lifecycle, UDSScanner):
     CONFIG_TYPE = C15UDSConfig
 
 
-CLASSES: dict[str, Any] = {"plain": C15Plain, "scanner": C15Scanner, "uds": C15Uds}
+CLASSES: dict[str, Any] = {"plain": C15Plain, "scanner": C15Scanner, "uds": C15Uds, "outer": C15Outer}
 
 
 class Probe(logging.Handler):
     def emit(self, record: logging.LogRecord) -> None:
         glog = logging.getLogger("gallia")
-        attached = any(h.queue_handler in glog.handlers for h in ST["zst"])
+        attached = [i for i, h in enumerate(ST["zst"]) if h.queue_handler in glog.handlers]
+        for i in range(len(ST["zst"])):
+            if ST["window_open"][i] and i not in attached and ST["detached_early"][i] is None:
+                ST["detached_early"][i] = record.getMessage()
         ST["records"].append(
             [record.levelno, record.name, record.getMessage(), attached, ST["in_hook"], bool(record.exc_info)]
         )
@@ -336,7 +384,7 @@ def build_config(case: dict[str, Any], d: Path) -> Any:
         else:
             kw["db"] = d / "db" / "run.sqlite"
     if case["lock"]:
-        kw["lock_file"] = d / "lockfile"
+        kw["lock_file"] = lock_path(case, d)
     kw["hooks"] = hv != "off"
     kw["pre_hook"] = hook_script(d, "pre", hv in ("pre-fail", "both-fail"), kind == "sigint" and point == "pre-hook")
     kw["post_hook"] = hook_script(d, "post", hv in ("post-fail", "both-fail"), kind == "sigint" and point == "post-hook")
@@ -349,7 +397,25 @@ def build_config(case: dict[str, Any], d: Path) -> Any:
     return CLASSES[cmd].CONFIG_TYPE(**kw)
 
 
+def lock_path(case: dict[str, Any], d: Path) -> Path:
+    if case["kind"] == "lockfault":
+        return d / "no-such-dir" / "lockfile"
+    return d / "lockfile"
+
+
+def build_outer_config(case: dict[str, Any], d: Path) -> Any:
+    kw: dict[str, Any] = {"artifacts_base": d / "artifacts", "hooks": False}
+    if case["db"]:
+        kw["db"] = d / "db" / "run.sqlite"
+    return C15OuterConfig(**kw)
+
+
 def case_label(case: dict[str, Any]) -> str:
+    if case.get("nest"):
+        return (
+            f"outer command awaiting {case['cmd']}/{case['kind']}@{case['point']} inner-artifacts={'on' if case['art'] else 'off'} "
+            f"outer-artifacts=on db={'on' if case['db'] else 'off'} lock=off hooks=off"
+        )
     return (
         f"{case['cmd']}/{case['kind']}@{case['point']} artifacts={'on' if case['art'] else 'off'} "
         f"db={'on' if case['db'] else 'off'} lock={'on' if case['lock'] else 'off'} hooks={case['hv']}"
@@ -367,8 +433,9 @@ def _child_prepare(case: dict[str, Any], d: Path) -> tuple[Any, dict[str, Any]]:
         del os.environ[k]
     sys.argv = ARGV + [case_label(case).replace(" ", ",")]
     _reset_state(case["kind"], case["point"], case.get("first"))
-    if case["kind"] == "dbfault" and case["point"] == "db-open":
+    if (case["kind"] == "dbfault" and case["point"] == "db-open") or case["kind"] == "lockfault":
         ST["fired"] = True  # the fault is in the configuration
+    ST["nest"] = bool(case.get("nest"))
     gbase.DBHandler = TracingDB  # type: ignore[misc]
     gplugin.load_transport = _load_transport  # type: ignore[assignment]
     real_add = gbase.add_zst_log_handler
@@ -376,6 +443,10 @@ def _child_prepare(case: dict[str, Any], d: Path) -> tuple[Any, dict[str, Any]]:
     def add(**kw: Any) -> Any:
         h = real_add(**kw)
         ST["zst"].append(h)
+        ST["zst_path"].append(str(kw["filepath"]))
+        ST["window_open"].append(True)
+        ST["detached_early"].append(None)
+        ST["closed_at_owner_finally"].append(None)
         return h
 
     gbase.add_zst_log_handler = add  # type: ignore[assignment]
@@ -384,9 +455,18 @@ def _child_prepare(case: dict[str, Any], d: Path) -> tuple[Any, dict[str, Any]]:
     glog.addHandler(Probe(level=0))
     config = build_config(case, d)
     cmd = CLASSES[case["cmd"]](config)
+    cmd._c15_role = "inner" if ST["nest"] else "single"
+    cmd._c15_kind = case["cmd"]
+    top = cmd
+    if ST["nest"]:
+        top = C15Outer(build_outer_config(case, d))
+        top._c15_role = "outer"
+        top._c15_kind = "outer"
+        ST["cmds"].append(top)
+    ST["cmds"].append(cmd)
     pre = {"config_json": config.model_dump_json(), "command": f"{type(cmd).__module__}.{type(cmd).__name__}",
            "cmd_id": cmd.id, "baseline_handlers": len(glog.handlers)}
-    return cmd, pre
+    return top, pre
 
 
 def _child(case: dict[str, Any], d: Path) -> None:
@@ -418,15 +498,33 @@ def _child(case: dict[str, Any], d: Path) -> None:
         glog = logging.getLogger("gallia")
         obs["zst"] = [
             {
+                "path": ST["zst_path"][i],
                 "closed": bool(h.file.closed),
                 "attached": h.queue_handler in glog.handlers,
                 "listener_alive": h.queue_listener is not None and h.queue_listener._thread is not None,
+                "detached_early": ST["detached_early"][i],
+                "closed_at_owner_finally": ST["closed_at_owner_finally"][i],
             }
-            for h in ST["zst"]
+            for i, h in enumerate(ST["zst"])
         ]
         obs["handlers_after"] = len(glog.handlers)
-        obs["cmd_handlers_left"] = len(cmd.log_file_handlers)
-        obs["db_connection_left_open"] = bool(cmd.db_handler is not None and cmd.db_handler.connection is not None)
+        obs["cmds"] = [
+            {
+                "role": c._c15_role,
+                "cmd": c._c15_kind,
+                "command": f"{type(c).__module__}.{type(c).__name__}",
+                "cmd_id": c.id,
+                "config_json": c.config.model_dump_json(),
+                "art": c.config.artifacts_base is not None,
+                "db": c.config.db is not None,
+                "artifacts_dir": str(c.artifacts_dir) if c.artifacts_dir is not None else None,
+                "handlers_left": len(c.log_file_handlers),
+                "db_left_open": bool(c.db_handler is not None and c.db_handler.connection is not None),
+            }
+            for c in ST["cmds"]
+        ]
+        obs["cmd_handlers_left"] = sum(x["handlers_left"] for x in obs["cmds"])
+        obs["db_connection_left_open"] = any(x["db_left_open"] for x in obs["cmds"])
         others = [t for t in threading.enumerate() if t is not threading.main_thread() and not t.daemon]
         if not obs["db_connection_left_open"]:
             # a closed aiosqlite connection has told its worker to stop; give it time to do so. (With a
@@ -435,7 +533,7 @@ def _child(case: dict[str, Any], d: Path) -> None:
                 t.join(timeout=15)
         obs["threads"] = sorted(t.name for t in others if t.is_alive())
         if case["lock"]:
-            lp = d / "lockfile"
+            lp = lock_path(case, d)
             if lp.exists():
                 fd = os.open(lp, os.O_RDONLY)
                 try:
@@ -448,7 +546,7 @@ def _child(case: dict[str, Any], d: Path) -> None:
             else:
                 obs["lock_free"] = None
         obs["artifacts_dir"] = str(cmd.artifacts_dir) if cmd.artifacts_dir is not None else None
-        for k in ("fired", "reached", "dbcalls", "records", "hook_raised", "harness_error"):
+        for k in ("fired", "reached", "dbcalls", "dbcalls_outer", "records", "hook_raised", "harness_error"):
             obs[k] = ST[k]
     except BaseException:  # noqa: BLE001 - reported to the parent, which raises
         obs["harness_error"] = "child harness exception:\n" + traceback.format_exc()
@@ -491,35 +589,30 @@ def read_env(p: Path) -> dict[str, str] | None:
     return out
 
 
+def _read_log(lp: Path) -> dict[str, Any]:
+    out: dict[str, Any] = {"log": None, "log_error": None}
+    if not lp.exists():
+        out["log_error"] = "file missing"
+        return out
+    try:
+        with PenlogReader(lp) as r:
+            out["log"] = [[x._python_level_no, x.module, x.data] for x in r.records()]
+    except Exception as e:  # noqa: BLE001 - any reader failure means "not fully readable"
+        if lp.stat().st_size > 0 and _zstd_empty(lp):
+            out["log"] = []
+        else:
+            out["log_error"] = f"{type(e).__name__}: {e}"
+    return out
+
+
 def read_files(case: dict[str, Any], d: Path, obs: dict[str, Any]) -> dict[str, Any]:
-    f: dict[str, Any] = {"meta": None, "meta_error": None, "db_rows": None, "log": None, "log_error": None}
-    if case["art"]:
-        base = d / "artifacts" / obs["cmd_id"]
-        runs = sorted(base.glob("run-*")) if base.exists() else []
-        f["run_dirs"] = [str(r) for r in runs]
-        if len(runs) == 1:
-            mp = runs[0] / "META.json"
-            if mp.exists():
-                try:
-                    f["meta"] = json.loads(mp.read_text())
-                except ValueError as e:
-                    f["meta_error"] = f"META.json is not JSON: {e}"
-            lp = runs[0] / "log.json.zst"
-            f["log_exists"] = lp.exists()
-            if lp.exists() and obs["zst"] and all(z["closed"] for z in obs["zst"]):
-                try:
-                    with PenlogReader(lp) as r:
-                        f["log"] = [[x._python_level_no, x.module, x.data] for x in r.records()]
-                except Exception as e:  # noqa: BLE001 - any reader failure means "not fully readable"
-                    if lp.stat().st_size > 0 and _zstd_empty(lp):
-                        f["log"] = []
-                    else:
-                        f["log_error"] = f"{type(e).__name__}: {e}"
+    """What the run left on disk; one entry per command of the process, the planned (single / inner) one also at top level."""
+    f: dict[str, Any] = {"cmds": [], "db_all": None}
     dbp = d / "db" / "run.sqlite"
     if case["db"] and dbp.exists():
         con = sqlite3.connect(dbp)
         try:
-            f["db_rows"] = [
+            f["db_all"] = [
                 list(r)
                 for r in con.execute(
                     "SELECT id, script, config, start_time, end_time, end_timezone, exit_code, path FROM run_meta ORDER BY id"
@@ -527,11 +620,32 @@ def read_files(case: dict[str, Any], d: Path, obs: dict[str, Any]) -> dict[str, 
             ]
         except sqlite3.Error as e:
             if "no such table" in str(e):
-                f["db_rows"] = []  # run ended before the schema was created: same as "no row yet"
+                f["db_all"] = []  # run ended before the schema was created: same as "no row yet"
             else:
                 f["db_error"] = f"{type(e).__name__}: {e}"
         finally:
             con.close()
+    # log files are only decoded when their handler was closed (an open zstd stream has no end mark)
+    f["logs"] = [_read_log(Path(z["path"])) if z["closed"] else {"log": None, "log_error": "handler never closed"} for z in obs["zst"]]
+    for spec in obs["cmds"]:
+        rec: dict[str, Any] = {"meta": None, "meta_error": None, "run_dirs": None, "db_rows": None}
+        if spec["art"]:
+            base = d / "artifacts" / spec["cmd_id"]
+            runs = sorted(base.glob("run-*")) if base.exists() else []
+            rec["run_dirs"] = [str(r) for r in runs]
+            if len(runs) == 1:
+                mp = runs[0] / "META.json"
+                if mp.exists():
+                    try:
+                        rec["meta"] = json.loads(mp.read_text())
+                    except ValueError as e:
+                        rec["meta_error"] = f"META.json is not JSON: {e}"
+        if f["db_all"] is not None:
+            rec["db_rows"] = [r for r in f["db_all"] if r[1] == spec["command"]]
+        f["cmds"].append(rec)
+    prim = f["cmds"][-1]  # the planned command is created last
+    for k in ("meta", "meta_error", "run_dirs", "db_rows"):
+        f[k] = prim[k]
     f["pre_env"] = read_env(d / "pre.env")
     f["post_env"] = read_env(d / "post.env")
     return f
@@ -581,6 +695,113 @@ def _iso(s: Any) -> datetime | None:
         return None
 
 
+def _judge_records(
+    case: dict[str, Any], spec: dict[str, Any], rec: dict[str, Any], obs: dict[str, Any], f: dict[str, Any],
+    exp: Any, want: int, ctx: str, fate: str, v: Any,
+) -> None:
+    """META.json, run_meta row and log file of ONE command (the single / inner one, or the outer one of a nested run)."""
+    cmd = spec["cmd"]
+    outer = spec["role"] == "outer"
+    sfx = "|nested=outer" if outer else ""
+    who = "outer command: " if outer else ("inner command: " if spec["role"] == "inner" else "")
+    proc = obs["proc_code"]
+    recorded_wrong: list[str] = []
+    have_dir = bool(rec["run_dirs"])
+    if spec["art"]:
+        meta = rec["meta"]
+        if len(rec["run_dirs"]) != 1 and not (exp.unlisted and not rec["run_dirs"]):
+            v(f"artifacts-dir|{ctx}|count={len(rec['run_dirs'])}{sfx}", f"{who}expected exactly one run directory, found {rec['run_dirs']}")
+        elif rec["meta_error"]:
+            v(f"meta.unreadable|{ctx}{sfx}", who + rec["meta_error"])
+        elif meta is None:
+            if have_dir:
+                v(f"meta.missing|{ctx}|fate={fate}{sfx}", f"{who}run directory without META.json (process status {proc})")
+        else:
+            if meta.get("exit_code") != want or isinstance(meta.get("exit_code"), bool):
+                recorded_wrong.append(f"META.json exit_code={meta.get('exit_code')!r}")
+            st, en = _iso(meta.get("start_time")), _iso(meta.get("end_time"))
+            if st is None or en is None or st > en or st.timestamp() < obs["t0"] - 5 or en.timestamp() > obs["t1"] + 5:
+                v(
+                    f"meta.times|{ctx}{sfx}",
+                    f"{who}META.json start_time={meta.get('start_time')!r} end_time={meta.get('end_time')!r} are not an ordered pair of timestamps inside the run",
+                )
+            if meta.get("command") != spec["command"]:
+                v(f"meta.command|cmd={cmd}", f"META.json command={meta.get('command')!r} != {spec['command']!r}")
+            try:
+                again = CLASSES[cmd].CONFIG_TYPE(**meta["config"]).model_dump_json()
+            except Exception as e:  # noqa: BLE001 - "config from which the run can be re-created"
+                again = f"<{type(e).__name__}: {e}>"
+            if again != spec["config_json"]:
+                v(f"meta.config|cmd={cmd}", f"CONFIG_TYPE(**META.config) gives {again[:200]} instead of {spec['config_json'][:200]}")
+
+    if spec["db"] and exp.db_row != "any":
+        rows = rec["db_rows"]
+        calls = ">".join(obs["dbcalls_outer"] if outer else obs["dbcalls"]) or "none"
+        if f.get("db_error"):
+            v(f"db.unreadable|{ctx}", f["db_error"])
+        elif not rows:
+            if exp.db_row == "complete":
+                v(f"db.row-missing|{ctx}|dbcalls={calls}{sfx}", f"{who}no run_meta row in the database")
+        elif len(rows) != 1:
+            v(f"db.rows|{ctx}|count={len(rows)}{sfx}", f"{who}{len(rows)} run_meta rows for one run")
+        else:
+            _id, script, config, start, end, end_tz, code, _path = rows[0]
+            if end is None or code is None or end_tz is None:
+                v(
+                    f"db.unfinished|family={'scanner' if cmd in ('scanner', 'uds') else 'plain'}|dbcalls={calls}{sfx}",
+                    f"{who}run_meta row left with end_time={end!r} exit_code={code!r} (process status {proc}); DBHandler calls: {calls}",
+                )
+            else:
+                if code != want:
+                    recorded_wrong.append(f"run_meta.exit_code={code!r}")
+                if not (start <= end):
+                    v(f"db.times|{ctx}{sfx}", f"{who}run_meta start_time={start} end_time={end}")
+            if json.loads(config) != json.loads(spec["config_json"]):
+                v(f"db.config|cmd={cmd}", f"run_meta config differs from the run's: {config[:200]}")
+    if recorded_wrong:
+        got = sorted({x.split("=", 1)[1] for x in recorded_wrong})
+        v(
+            f"recorded-exit-code|{ctx}|got={'/'.join(got)}|want={want}{sfx}",
+            f"{who}{' and '.join(recorded_wrong)} while the process exits with {proc} (documented mapping: {exp.codes or 'any non-zero'})",
+        )
+
+    # log file: exactly one handler per run directory, open and attached for as long as its owner runs, closed and
+    # detached by its owner, and the file holds every record logged while it was attached
+    if spec["art"] and have_dir:
+        own = [i for i, x in enumerate(obs["zst"]) if rec["run_dirs"] and str(Path(x["path"]).parent) == rec["run_dirs"][0]]
+        if len(own) != 1:
+            v(f"log.handlers|{ctx}|count={len(own)}{sfx}", f"{who}{len(own)} log file handlers were created for the run directory")
+            return
+        i = own[0]
+        x = obs["zst"][i]
+        if x["detached_early"] is not None:
+            v(
+                f"log.detached-early|{ctx}{sfx}",
+                f"{who}its log handler was taken off the logger while the command was still running; first record it missed: {x['detached_early']!r}",
+            )
+        if x["closed_at_owner_finally"]:
+            v(f"log.closed-by-other|{ctx}{sfx}", f"{who}its log file was already closed when the command began its own final bookkeeping")
+        if not x["closed"] or x["listener_alive"]:
+            v(
+                f"log.unclosed|{ctx}|fate={fate}{sfx}",
+                f"{who}log.json.zst still open (closed={x['closed']}, writer thread alive={x['listener_alive']}) when the process ends: compressed stream is incomplete",
+            )
+        elif x["attached"] or spec["handlers_left"]:
+            v(
+                f"log.handler-leaked|{ctx}|fate={fate}{sfx}",
+                f"{who}log handler still registered after the run (attached={x['attached']}, cmd.log_file_handlers={spec['handlers_left']})",
+            )
+        if x["closed"]:
+            want_recs = [[r[0], r[1], r[2], r[5]] for r in obs["records"] if i in r[3] and r[0] >= Loglevel.DEBUG]
+            lg = f["logs"][i]
+            if lg["log_error"] or lg["log"] is None:
+                v(f"log.unreadable|{ctx}{sfx}", f"{who}log.json.zst cannot be decoded completely: {lg['log_error'] or 'file missing'}")
+            else:
+                prob = _cmp_records(want_recs, lg["log"])
+                if prob:
+                    v(f"log.records|{ctx}|{prob[0]}{sfx}", who + prob[1])
+
+
 def judge(case: dict[str, Any], d: Path, obs: dict[str, Any], f: dict[str, Any]) -> list[tuple[str, str]]:
     """Returns [(signature, message)] for one executed case."""
     out: list[tuple[str, str]] = []
@@ -619,13 +840,13 @@ def judge(case: dict[str, Any], d: Path, obs: dict[str, Any], f: dict[str, Any])
     # --- setup/main/teardown sequencing: once main was entered, teardown runs --------------------
     if "main" in obs["reached"] and "teardown-early" not in obs["reached"]:
         v(f"stage-skipped|teardown|{ctx}", f"main() was entered but teardown() never ran (stages seen: {obs['reached']})")
-    if hv != "off" and obs["fate"] == "return" and "post-hook" not in obs["reached"]:
+    if hv != "off" and exp.run_started and obs["fate"] == "return" and "post-hook" not in obs["reached"]:
         v(f"stage-skipped|post-hook|{ctx}", f"entry_point() returned without running the post-hook (stages seen: {obs['reached']})")
 
     # --- process-level exit code -----------------------------------------------------------
-    if exp.weak:
+    if exp.unlisted:
         if proc == 0:
-            v(f"exit-code|{ctx}|got=0", "process claims success although the database could not be opened")
+            v(f"exit-code|{ctx}|got=0", "process claims success although the run could not be started")
         want = proc
     else:
         if proc not in exp.codes:
@@ -640,97 +861,18 @@ def judge(case: dict[str, Any], d: Path, obs: dict[str, Any], f: dict[str, Any])
             f"non-daemon thread(s) {obs['threads']} still running after asyncio.run(): the interpreter blocks at exit instead of delivering status {proc}",
         )
 
-    # --- META.json --------------------------------------------------------------------------
-    recorded_wrong: list[str] = []
-    if case["art"]:
-        meta = f["meta"]
-        if f.get("run_dirs") is not None and len(f["run_dirs"]) != 1:
-            v(f"artifacts-dir|{ctx}|count={len(f['run_dirs'])}", f"expected exactly one run directory, found {f['run_dirs']}")
-        elif f["meta_error"]:
-            v(f"meta.unreadable|{ctx}", f["meta_error"])
-        elif meta is None:
-            if not exp.weak:
-                v(f"meta.missing|{ctx}|fate={fate}", f"no META.json in the artifacts directory (process status {proc})")
-        else:
-            if meta.get("exit_code") != want or isinstance(meta.get("exit_code"), bool):
-                recorded_wrong.append(f"META.json exit_code={meta.get('exit_code')!r}")
-            st, en = _iso(meta.get("start_time")), _iso(meta.get("end_time"))
-            if st is None or en is None or st > en or st.timestamp() < obs["t0"] - 5 or en.timestamp() > obs["t1"] + 5:
-                v(
-                    f"meta.times|{ctx}",
-                    f"META.json start_time={meta.get('start_time')!r} end_time={meta.get('end_time')!r} are not an ordered pair of timestamps inside the run",
-                )
-            if meta.get("command") != obs["command"]:
-                v(f"meta.command|cmd={cmd}", f"META.json command={meta.get('command')!r} != {obs['command']!r}")
-            try:
-                again = CLASSES[cmd].CONFIG_TYPE(**meta["config"]).model_dump_json()
-            except Exception as e:  # noqa: BLE001 - "config from which the run can be re-created"
-                again = f"<{type(e).__name__}: {e}>"
-            if again != obs["config_json"]:
-                v(f"meta.config|cmd={cmd}", f"CONFIG_TYPE(**META.config) gives {again[:200]} instead of {obs['config_json'][:200]}")
-
-    # --- database ----------------------------------------------------------------------------
-    if case["db"] and exp.db_row != "any":
-        rows = f["db_rows"]
-        calls = ">".join(obs["dbcalls"]) or "none"
-        if f.get("db_error"):
-            v(f"db.unreadable|{ctx}", f["db_error"])
-        elif not rows:
-            if exp.db_row == "complete":
-                v(f"db.row-missing|{ctx}|dbcalls={calls}", "no run_meta row in the database")
-        elif len(rows) != 1:
-            v(f"db.rows|{ctx}|count={len(rows)}", f"{len(rows)} run_meta rows for one run")
-        else:
-            _id, script, config, start, end, end_tz, code, _path = rows[0]
-            if end is None or code is None or end_tz is None:
-                v(
-                    f"db.unfinished|family={'plain' if cmd == 'plain' else 'scanner'}|dbcalls={calls}",
-                    f"run_meta row left with end_time={end!r} exit_code={code!r} (process status {proc}); DBHandler calls: {calls}",
-                )
-            else:
-                if code != want:
-                    recorded_wrong.append(f"run_meta.exit_code={code!r}")
-                if not (start <= end):
-                    v(f"db.times|{ctx}", f"run_meta start_time={start} end_time={end}")
-            if script != obs["command"] or json.loads(config) != json.loads(obs["config_json"]):
-                v(f"db.config|cmd={cmd}", f"run_meta script/config differ from the run's: {script!r} {config[:200]}")
-    if recorded_wrong:
-        got = sorted({x.split("=", 1)[1] for x in recorded_wrong})
-        v(
-            f"recorded-exit-code|{ctx}|got={'/'.join(got)}|want={want}",
-            f"{' and '.join(recorded_wrong)} while the process exits with {proc} (documented mapping: {exp.codes})",
-        )
-
-    # --- log file ------------------------------------------------------------------------------
-    if case["art"] and not exp.weak:
-        z = obs["zst"]
-        if len(z) != 1:
-            v(f"log.handlers|{ctx}|count={len(z)}", f"{len(z)} log file handlers were created")
-        else:
-            if not z[0]["closed"] or z[0]["listener_alive"]:
-                v(
-                    f"log.unclosed|{ctx}|fate={fate}",
-                    f"log.json.zst still open (closed={z[0]['closed']}, writer thread alive={z[0]['listener_alive']}) when the process ends: compressed stream is incomplete",
-                )
-            elif z[0]["attached"] or obs["handlers_after"] != obs["baseline_handlers"] or obs["cmd_handlers_left"]:
-                v(
-                    f"log.handler-leaked|{ctx}|fate={fate}",
-                    f"log handler still registered after the run (attached={z[0]['attached']}, logger handlers {obs['baseline_handlers']}->{obs['handlers_after']}, cmd.log_file_handlers={obs['cmd_handlers_left']})",
-                )
-            if z[0]["closed"]:
-                want_recs = [[r[0], r[1], r[2], r[5]] for r in obs["records"] if r[3] and r[0] >= Loglevel.DEBUG]
-                if f["log_error"] or f["log"] is None:
-                    v(f"log.unreadable|{ctx}", f"log.json.zst cannot be decoded completely: {f['log_error'] or 'file missing'}")
-                else:
-                    got_recs = f["log"]
-                    prob = _cmp_records(want_recs, got_recs)
-                    if prob:
-                        v(f"log.records|{ctx}|{prob[0]}", prob[1])
+    # --- what every command of the process left behind: META.json, run row, log file -----------------
+    for spec, rec in zip(obs["cmds"], f["cmds"]):
+        _judge_records(case, spec, rec, obs, f, exp, want, ctx, fate, v)
+    z = obs["zst"]
+    if z and all(x["closed"] and not x["attached"] for x in z) and obs["handlers_after"] != obs["baseline_handlers"]:
+        v(f"log.handler-leaked|{ctx}|fate={fate}", f"'gallia' logger has {obs['handlers_after']} handlers after the run, {obs['baseline_handlers']} before")
 
     # --- lock ------------------------------------------------------------------------------------
     if case["lock"]:
         if obs.get("lock_free") is None:
-            v(f"lock.file-missing|{ctx}", "lock file was never created")
+            if exp.run_started:
+                v(f"lock.file-missing|{ctx}", "lock file was never created")
         elif obs["lock_free"] is False and obs["fate"] == "return":
             v(f"lock.held|{ctx}", "flock(LOCK_EX|LOCK_NB) on the lock file fails after entry_point() returned")
 
@@ -745,7 +887,7 @@ def judge(case: dict[str, Any], d: Path, obs: dict[str, Any], f: dict[str, Any])
         for w in ("pre", "post"):
             env = f[f"{w}_env"]
             if env is None:
-                if w == "pre":
+                if w == "pre" and exp.run_started:
                     v(f"hook-env|pre|not-run|{ctx}", "pre-hook was not executed")
                 continue
             if env.get("GALLIA_HOOK") != w:
@@ -816,6 +958,10 @@ def items(tier: str, seed: int) -> list[Any]:
         for kind, point in M.scenarios(cmd):
             for art, db, lock in itertools.product((False, True), repeat=3):
                 out.append(("group", tier, cmd, kind, point, art, db, lock))
+    # history shape "a command awaits another command's entry_point() while its own log file is open" (script rerun)
+    for cmd in M.CMDS:
+        for kind, point in M.nested_scenarios(cmd):
+            out.append(("nested", cmd, kind, point))
     if tier == "thorough":
         for cmd in M.CMDS:
             for kind, point in M.scenarios(cmd):
@@ -859,7 +1005,7 @@ def run_case(case: dict[str, Any], res: Result) -> tuple[dict[str, Any], dict[st
     if fired:
         ecodes = M.expect(case["cmd"], case["kind"], case["point"]).codes
         h3 = res.notes.setdefault("expected_code_histogram", {})
-        key = str(ecodes[0]) if ecodes else "weak"
+        key = str(ecodes[0]) if ecodes else "unlisted"
         h3[key] = h3.get(key, 0) + 1
     h2 = res.notes.setdefault("entry_point_outcome_histogram", {})
     h2[obs["fate"]] = h2.get(obs["fate"], 0) + 1
@@ -873,7 +1019,7 @@ def run_group(item: tuple[Any, ...], res: Result, verbose: bool = False, only: t
     ping = item[0] == "group-ping"
     runs: dict[str, Any] = {}
     for hv in only or hook_variants(tier):
-        if not M.reachable(kind, point, db, hv):
+        if not M.reachable(kind, point, db, hv, lock):
             res.count("unreachable_combinations")
             continue
         case = {"cmd": cmd, "kind": kind, "point": point, "art": art, "db": db, "lock": lock, "hv": hv}
@@ -915,6 +1061,25 @@ def run_group(item: tuple[Any, ...], res: Result, verbose: bool = False, only: t
                     "DBHandler calls": obs["dbcalls"], "records logged": len(obs["records"])})
 
 
+def run_nested(item: tuple[Any, ...], res: Result, verbose: bool = False, only: dict[str, Any] | None = None) -> None:
+    _, cmd, kind, point = item
+    for art, db in itertools.product((True, False), (False, True)):
+        case = {"cmd": cmd, "kind": kind, "point": point, "art": art, "db": db, "lock": False, "hv": "off", "nest": True}
+        if only is not None and only != case:
+            continue
+        obs, f, d, viol = run_case(case, res)
+        res.count("nested_command_cases")
+        if verbose:
+            _print_case(case, obs, f, viol)
+        if cmd == "plain" and kind == "exit3" and point == "main" and art and db:
+            res.sample({"case": case_label(case), "process exit status": obs["proc_code"], "stages": obs["reached"],
+                        "commands": [{"role": s["role"], "META exit_code": (r["meta"] or {}).get("exit_code"),
+                                      "run_meta exit_code": r["db_rows"][0][6] if r["db_rows"] else None}
+                                     for s, r in zip(obs["cmds"], f["cmds"])],
+                        "log handlers": [{k: z[k] for k in ("closed", "attached", "detached_early", "closed_at_owner_finally")} for z in obs["zst"]]})
+        shutil.rmtree(d, ignore_errors=True)
+
+
 def _short(x: Any) -> str:
     s = json.dumps(x)
     return s if len(s) < 160 else s[:160] + "..."
@@ -924,6 +1089,10 @@ def _print_case(case: dict[str, Any], obs: dict[str, Any], f: dict[str, Any], vi
     print("  case:", case_label(case))
     print("    entry_point outcome:", obs["fate"], obs.get("raise_site", ""), obs.get("raise_text", ""))
     print("    process status:", obs["proc_code"], "| stages:", obs["reached"], "| exit fired:", obs["fired"])
+    if case.get("nest"):
+        for sp, rc in zip(obs["cmds"], f["cmds"]):
+            print(f"    {sp['role']} command: run dirs {len(rc['run_dirs'] or [])}, META exit_code",
+                  (rc["meta"] or {}).get("exit_code"), "| rows", [[r[0], r[4], r[6]] for r in rc["db_rows"] or []])
     print("    META.json:", {k: v for k, v in f["meta"].items() if k != "config"} if f["meta"] else None)
     print("    run_meta rows (id, end_time, end_tz, exit_code):", [[r[0], r[4], r[5], r[6]] for r in f["db_rows"]] if f["db_rows"] is not None else None)
     print("    DBHandler calls:", obs["dbcalls"], "| log handlers:", obs["zst"], "| lock free:", obs.get("lock_free"))
@@ -1084,6 +1253,8 @@ def run_item(item: tuple[Any, ...]) -> Result:
     try:
         if item[0] in ("group", "group-ping"):
             run_group(item, res)
+        elif item[0] == "nested":
+            run_nested(item, res)
         elif item[0] == "double":
             run_double(item, res)
         elif item[0] == "fresh":
@@ -1104,6 +1275,8 @@ def replay(doc: dict[str, Any]) -> Result:
             case = doc["case"]
             if "first" in case:
                 run_double(("double", case["cmd"], case["first"], case["kind"]), res)
+            elif case.get("nest"):
+                run_nested(("nested", case["cmd"], case["kind"], case["point"]), res, verbose=True, only=case)
             else:
                 item = ("group-ping" if case.get("ping") else "group", "thorough", case["cmd"], case["kind"], case["point"],
                         case["art"], case["db"], case["lock"])
@@ -1122,7 +1295,7 @@ def finish(merged: Result, tier: str) -> dict[str, Any]:
     if ev == 0:
         raise Broken("no case was evaluated")
     planned = merged.notes.get("expected_code_histogram", {})
-    for code in ("0", "1", "3", "70", "74", "130", "weak"):
+    for code in ("0", "1", "3", "70", "74", "130", "unlisted"):
         if code not in planned:
             raise Broken(f"vacuous: no executed case whose documented exit code is {code}")
     if c.get("exit_fired_at_planned_point", 0) < ev * 0.5:
